@@ -454,8 +454,8 @@ class DocSync:
                 if key in dst:
                     if dst[key] == value:
                         continue
-                    elif isinstance(value, Mapping):
-                        self(src[key], dst[key], key + ".")
+                    elif isinstance(value, Mapping) and isinstance(dst[key], Mapping):
+                        self(src[key], dst[key], root + key + ".")
                         continue
                     elif self.key_strategy is None or not self.key_strategy(root + key):
                         self.skipped_keys.add(root + key)
